@@ -31,7 +31,7 @@ func NotifyError(title, text string) {
 
 func NotifySend(urgency, title, text, icon string) {
 	display, exists := os.LookupEnv("DISPLAY")
-	if !exists {
+	if !exists || len(strings.TrimSpace(display)) <= 0 {
 		Warning("Cannot send notification, missing env variable 'DISPLAY'!")
 		return
 	}
@@ -45,8 +45,9 @@ func NotifySend(urgency, title, text, icon string) {
 	lines := strings.Split(string(output), "\n")
 	var user string
 	for _, line := range lines {
-		if strings.Contains(line, display) {
-			user = strings.TrimSpace(strings.Fields(line)[0])
+		fields := strings.Fields(line)
+		if len(fields) > 0 && strings.Contains(line, display) {
+			user = strings.TrimSpace(fields[0])
 			break
 		}
 	}
